@@ -665,5 +665,36 @@ class P(_po.CliStatementMixin, _BaseP):
         "; 1.5 % of the cases run the whole command line in process (harness/cli_model.py: 1-3 shipped MaxQuant / Percolator "
         "methods, generated UniProt-style FASTA and evidence files; --gene_level x --fasta_use_uniprot_id x "
         "--fasta_contains_decoys on databases where most / at most half of the records carry a gene name) and state C19 on "
-        "the identifiers and the three annotation columns of every written row"
+        "the identifiers and the three annotation columns of every written row; the gene-level sentence is stated on every "
+        "method of such a run (pipeline_oracles.oracle_c19_gene_level: fall-back decided from the FASTA text alone => the "
+        "groups handed to the first competition are the pseudo-genes of the method's ingested peptide list, whatever grouping "
+        "the method file names; else identifiers are gene names); 60 % of the fall-back runs without a method of grouping `no` "
+        "are redrawn until one takes part"
     )
+
+    def gen_case(self, rng, tier):
+        if rng.random() < self.cli_model_share:
+            return _po.gen_cli_case_gene_level(rng, tier)
+        return super(_po.cm.CliMixin, self).gen_case(rng, tier)
+
+    def oracle(self, case, impl_out):
+        o = super().oracle(case, impl_out)
+        if o is None and isinstance(case, dict) and case.get("kind") == "cli_model":
+            o = _po.oracle_c19_gene_level(case, impl_out)
+            if o:
+                o = "command line %s: %s" % (_po.cm.describe(case), o)
+        return o
+
+    def features(self, case, impl_out):
+        f = super().features(case, impl_out)
+        if isinstance(case, dict) and case.get("kind") == "cli_model" and case["flags"].get("gene_level"):
+            fb = _po.gene_level_decision(case)[0]
+            tag = "cli_gene_level:%s" % ("no-fasta" if fb is None else "pseudo-gene-fall-back" if fb else "gene-names")
+            sm = _po.cm.shipped()
+            for name, m in zip(case["methods"], (impl_out.get("methods") if isinstance(impl_out, dict) else None) or []):
+                if not m or not m.get("passes"):
+                    continue
+                f.append("%s:method-grouping=%s" % (tag, sm[name].get("grouping")))
+                if fb and any(len(g) > 1 for g in m["passes"][0]["comp_groups"]):
+                    f.append("%s:method-grouping=%s:a-pseudo-gene-joins-several-proteins" % (tag, sm[name].get("grouping")))
+        return f
